@@ -444,6 +444,60 @@ func init() {
 		roaring.Unset(x, uint32(lo), uint32(hi-1))(c.yield)
 		return c.render(false)
 	})
+	// seqlate <ranges|values|backward> x v : the sequence VALUE is taken first, then the bitmap gets the value v (possibly a new
+	// chunk), then the sequence is ranged over — twice: a range-over-func sequence is evaluated when it is ranged over and can be
+	// restarted. Output: "<digest of what the first pass yields> <digest of the second pass> <digest of x>"
+	reg("seqlate", func(e *env, a []string) string {
+		need(a, 3)
+		x := e.b(a[1])
+		v := u32(a[2])
+		pass := func(run func(yield func(lo uint32, hi uint64) bool)) string {
+			var ivs []iv
+			bad := false
+			run(func(lo uint32, hi uint64) bool {
+				if hi <= uint64(lo) {
+					bad = true
+					return false
+				}
+				if n := len(ivs); n > 0 && ivs[n-1].hi+1 == uint64(lo) {
+					ivs[n-1].hi = hi - 1
+				} else {
+					ivs = append(ivs, iv{uint64(lo), hi - 1})
+				}
+				return true
+			})
+			if bad {
+				return "bad"
+			}
+			return digest(ivs)
+		}
+		var run func(yield func(lo uint32, hi uint64) bool)
+		switch a[0] {
+		case "ranges":
+			seq := x.Ranges()
+			run = func(y func(uint32, uint64) bool) { seq(y) }
+		case "values":
+			seq := roaring.Values(x)
+			run = func(y func(uint32, uint64) bool) { seq(func(w uint32) bool { return y(w, uint64(w)+1) }) }
+		case "backward":
+			seq := roaring.Backward(x)
+			run = func(y func(uint32, uint64) bool) {
+				var vals []uint32
+				seq(func(w uint32) bool { vals = append(vals, w); return true })
+				for i := len(vals) - 1; i >= 0; i-- {
+					if !y(vals[i], uint64(vals[i])+1) {
+						return
+					}
+				}
+			}
+		default:
+			panic(skipErr{"kind"})
+		}
+		x.Add(v)
+		p1 := pass(run)
+		p2 := pass(run)
+		return p1 + " " + p2 + " " + d32(x)
+	})
 	// ranges x k : the yielded pairs, rendered one by one (no coalescing here)
 	reg("ranges", func(e *env, a []string) string {
 		need(a, 2)
